@@ -180,6 +180,7 @@ theorem execRangeI_cons (funs : String → Option FunDef) (fuel : Nat) (iv v : S
   generalize exec funs fuel body _ = out
   cases out <;> rfl
 
+set_option maxRecDepth 8192 in
 /-- the `range` loop is the model's scan (`NumberProofs.scan`, to which `numScan` is equal): an abort is `return 0, 0`,
     otherwise the loop ends normally with `pos`, `found` as the model computes them; `pos ≤ len(buf)` -/
 theorem scan_loop (b : Bytes) (tape : Array UInt64) (fuel : Nat) :
@@ -223,3 +224,50 @@ theorem scan_loop (b : Bytes) (tape : Array UInt64) (fuel : Nat) :
           simp only [c0, c8, cm, if_true, if_false]
           exact this
 end Loop
+
+/-! ## parseNumber: after the loop -/
+
+/-- the two returned words -/
+def enc : Option (UInt64 × UInt64) → List Val
+  | none => [.u64 0, .u64 0]
+  | some (id, val) => [.u64 id, .u64 val]
+
+def headT : List Stmt := tailStmts.take 3
+def intIte : Stmt := tailStmts.getD 3 .brk
+def floatT : List Stmt := tailStmts.drop 4
+theorem tail_eq : tailStmts = headT ++ ([intIte] ++ floatT) := rfl
+
+theorem toList_getD (b : Bytes) (j : Nat) : b.toList.getD j 0 = b.getD j 0 := by
+  simp only [Array.getD, List.getD, Array.getElem?_toList]
+  split <;> simp [*]
+
+section Tail
+attribute [-simp] Env.get Env.set tblLookup
+attribute [local simp] GoRebuild.Env.get_set tbl_rune extCall assignTargets
+
+theorem float_sim (b : Bytes) (tape : Array UInt64) (fuel : Nat) (e : Env) (pn : Nat) (ft : UInt64)
+    (hb : e.get "buf" = some (.bytes b)) (hp : e.get "pos" = some (.int pn)) (hft : e.get "floatTag" = some (.u64 ft))
+    (h1 : 1 ≤ pn) (hle : pn ≤ b.size) :
+    ∃ s', exec goFuns fuel floatT ⟨e, tape⟩ = .ret s' (enc (NumberProofs.floatPath b.toList pn ft)) ∧ s'.tape = tape := by
+  have hx : (b.extract 0 pn).toList = b.toList.take pn := by simp
+  have hsz : (0 : Int) < b.size := by omega
+  have hszn : 0 < b.size := by omega
+  simp only [NumberProofs.floatPath, toList_getD]
+  generalize hc0 : b.getD 0 0 = c0
+  generalize hc1 : b.getD 1 0 = c1
+  generalize hc2 : b.getD 2 0 = c2
+  simp only [Array.getD_eq_getD_getElem?] at hc0 hc1 hc2
+  by_cases hm : c0 = 45
+  · sorry
+  · have hm' : (c0 == 45) = false := beq_false_of_ne hm
+    simp only [hm', Bool.false_eq_true, if_false, Nat.zero_add, hc0, hc1]
+    by_cases hg : pn > 1
+    · sorry
+    · have hgi : ¬ (1 : Int) < pn := by omega
+      cases hpf : parseFloat64 (b.toList.take pn) with
+      | none =>
+        simp [floatT, tailStmts, goparseNumber, hb, hp, hft, hsz, hszn, hc0, hm', hg, hgi, hle, hx, hpf, enc]
+        trace_state
+        sorry
+      | some bits => sorry
+end Tail
